@@ -48,9 +48,22 @@ def projText (t : Proxy.Tmpl) (p : Proxy.SeqProxy) : List Char :=
       joinWith ',' ((Proxy.joinDot t.path ++ hyperslabText p.slice ++ i0.drop (Proxy.joinDot t.path).length) :: rest)
   else proxyId t p ++ hyperslabText p.slice
 
+/-- `SequenceProxy._projection`, all three branches (after 3339666): with selected columns the record
+    range goes on the sequence name of the first column (`projText`); for a single column — the
+    template is not a `SequenceType` (a `BaseType` has no `_dict` keys) and the id has a dot — the id
+    is cut at its LAST dot (`rpartition(".")`) and the record range is written on the sequence,
+    `s[a:k:b].f`; otherwise after the id (`projText`). -/
+def projFull (t : Proxy.Tmpl) (p : Proxy.SeqProxy) : List Char :=
+  if p.subChildren ∧ t.visible ≠ [] then projText t p
+  else if t.keys = [] then
+    match IterData.rsplitDot (proxyId t p) with
+    | some (seq, name) => seq ++ hyperslabText p.slice ++ '.' :: name
+    | none => projText t p
+  else projText t p
+
 /-- the query of `SequenceProxy.url`: `(projection + "&" + "&".join(selection)).rstrip("&")` -/
 def queryText (t : Proxy.Tmpl) (p : Proxy.SeqProxy) : List Char :=
-  rstripChar '&' (projText t p ++ '&' :: joinWith '&' p.selection)
+  rstripChar '&' (projFull t p ++ '&' :: joinWith '&' p.selection)
 
 /-- the query of the GET that reading object `r` issues now -/
 def objQuery (h : Proxy.Heap) (r : Nat) : Option (List Char) :=
